@@ -40,6 +40,7 @@ type FuncContract struct {
 	GhostSort   map[string]string
 	GhostUpd    []*GhostUpd
 	Defines     map[string]*Define
+	NoMergeLoop map[int]bool // "nomerge loop k": enumerate the paths through the body of loop k (its joins are not merged)
 	NoMerge     bool // do not merge symbolic states at control-flow joins (enumerate paths)
 	Inline      bool // no contract: callers execute the body
 	Trusted     bool // contract assumed, body not verified (must be listed)
@@ -313,6 +314,15 @@ func parseContractFile(path string, cs *ContractSet) error {
 			}
 		case t == "nomerge":
 			cur.NoMerge = true
+		case strings.HasPrefix(t, "nomerge loop "):
+			n, err := strconv.Atoi(strings.TrimSpace(strings.TrimPrefix(t, "nomerge loop ")))
+			if err != nil {
+				return fmt.Errorf("%s:%d: bad loop ordinal in %q", path, i+1, t)
+			}
+			if cur.NoMergeLoop == nil {
+				cur.NoMergeLoop = map[int]bool{}
+			}
+			cur.NoMergeLoop[n] = true
 		case t == "inline":
 			cur.Inline = true
 		case t == "trusted":
